@@ -16,6 +16,7 @@ DV = [
     ("1", 1, "int"), ("-1", -1, "int"), ("+1", 1, "int"), ("0", 0, "int"), ("1.5", 1.5, "float"), ("-1.5", -1.5, "float"),
     ("2.0", 2.0, "float"), ("1e100", 1e100, "float"), ('"s"', "s", "str"), ('""', "", "str"), ("'a b'", "a b", "str"),
     ("True", True, "bool"), ("False", False, "bool"), ("None", None, "int | None"),
+    ("1e999", float("inf"), "float"), ("-1e999", float("-inf"), "float"), ("'a\\nb'", "a\nb", "str"), ("'q\"q'", 'q"q', "str"), ("'b\\\\s'", "b\\s", "str"), ("'{x}'", "{x}", "str"),
 ]  # fmt: skip
 NONLIT = [("2**3", "int"), ("[]", "list[int]"), ("int()", "int"), ("_CONST", "int"), ("not 1", "int")]
 
@@ -184,7 +185,7 @@ def judge_case(rep: Report, case: Case, idx, api, obs: Obs, files, opts) -> None
 
     def viol(clause: str, feat: str, detail: dict) -> None:
         rep.violation(
-            clause, f"{clause}:{owner}:{feat}",
+            clause, f"{clause}:{owner}{'+docdefault' if '|docdefault:' in case.label else ('+names' if '|names:' in case.label else '')}:{feat}",
             {"case": case.label, "python": case.src, "stub_params": [(p.py_name, p.type.render() if p.type else None, render_expr(p.default) if p.default else None) for p in (sparams or [])], **detail},
             files={f"{PKG}/__init__.py": "", f"{PKG}/m.py": "_CONST = 3\n\n\n" + case.src}, src_rel=PKG, opts=opts, obs=None,
         )
@@ -262,7 +263,9 @@ def judge_case(rep: Report, case: Case, idx, api, obs: Obs, files, opts) -> None
                 rep.ok("api-optional")
             if want_opt:
                 dv = pe["default_value"]
-                good = _same_value(dv, p.value) or (isinstance(p.value, str) and dv == f'"{p.value}"')
+                # string defaults are stored as the quoted literal text the stub shows (backslash and quote escaped)
+                quoted = '"' + p.value.replace("\\", "\\\\").replace('"', '\\"') + '"' if isinstance(p.value, str) else None
+                good = _same_value(dv, p.value) or (quoted is not None and dv == quoted)
                 if good:
                     rep.ok("api-default-value")
                 else:
@@ -276,11 +279,37 @@ def run(rep: Report, tier: str, seed: int) -> None:
     rep.rule = (
         "all Python-legal parameter-kind sequences of total length <= %d x legal default-presence patterns x annotation patterns x 10 owner kinds"
         " (method of a private superclass shown in 3 public subclasses, function, method, static, class method, constructor, receiver named 'this', static with first parameter 'self', nested-class method,"
-        " module function with parameter 'self'); every default letter (14 literals + 5 non-literals) in every position of 1-2 parameter signatures;"
+        " module function with parameter 'self'); every default letter (20 literals incl. infinities and strings with newline / quote / backslash / brace + 5 non-literals) in every position of 1-2 parameter signatures;"
+        " parameter names __x / _ / __; defaults mentioned in numpydoc / Google / reST docstrings next to 0 or 1 Python defaults (CODE preference);"
         " distinct = distinct case label (all labels are distinct, all cases have >=0 parameters and an emitted declaration)" % (3 if tier == "quick" else 5)
     )
+    # ---- parameter NAMES with a meaning for other tools: a leading double underscore is not position-only in Python >= 3.8
+    n0 = len(cases)
+    for owner in ("func", "method", "static"):
+        for names in (("__x",), ("__x", "y"), ("x", "__y"), ("_", "__")):
+            ps = [P("PK", nm, "int", "1" if k == len(names) - 1 and len(names) > 1 else None, 1, True) for k, nm in enumerate(names)]
+            cases.append(Case(len(cases), render_case(len(cases), owner, ps), (owner, ps), (), f"{owner}|names:{','.join(names)}"))
     per_group = 2500
     groups = [(cases[i : i + per_group], Opts()) for i in range(0, len(cases), per_group)]
+    # ---- defaults mentioned in DOCSTRINGS must not change what Python says (structured styles, CODE preference)
+    doc_cases: dict[str, list[Case]] = {"NUMPYDOC": [], "GOOGLE": [], "REST": []}
+    for style in doc_cases:
+        for owner in ("func", "method"):
+            for (pydef, docdef), ann in itertools.product(((None, "7"), ("3", "7"), ("3", None), (None, None), ("3", "3")), ("int", None)):
+                cid = len(cases) + sum(len(v) for v in doc_cases.values())
+                ps = [P("PK", "p0", ann, pydef, int(pydef) if pydef else None, True), P("PK", "p1", "int", "5", 5, True)]
+                dd = {"NUMPYDOC": f"Summary.\n\n    Parameters\n    ----------\n    p0 : int{', default=' + docdef if docdef else ''}\n        The p0.\n    p1 : int, optional\n        The p1.\n    ",
+                      "GOOGLE": f"Summary.\n\n    Args:\n        p0 (int): The p0.{' Defaults to ' + docdef + '.' if docdef else ''}\n        p1 (int, optional): The p1.\n    ",
+                      "REST": f"Summary.\n\n    :param p0: The p0{', defaults to ' + docdef if docdef else ''}\n    :type p0: int\n    :param p1: The p1\n    :type p1: int, optional\n    "}[style]
+                src = render_case(cid, owner, ps)
+                ind = "        " if owner == "method" else "    "
+                head, _, rest = src.rpartition(f"{ind}return None\n")
+                doc = dd.replace("\n    ", "\n" + ind)
+                src = head + f'{ind}"""{doc}"""\n{ind}return None\n' + rest
+                doc_cases[style].append(Case(cid, src, (owner, ps), (), f"{owner}|docdefault:{style}:py={pydef}:doc={docdef}:{'ann' if ann else 'raw'}"))
+    for style, cs in doc_cases.items():
+        groups.append((cs, Opts(docstyle=style)))
+    del n0
     stats: dict[str, int] = {}
 
     def build(units):
